@@ -1545,7 +1545,7 @@ def _kind_of(c):
         return "try"
     if c.name in ("retain", "retain_mut") and not c.trait:
         return "vec"
-    if c.name == "swap" and (p.startswith("std::mem::") or p.startswith("core::mem::")):
+    if c.name in ("swap", "replace", "take") and (p.startswith("std::mem::") or p.startswith("core::mem::")):
         return "mem"
     if c.name == "contains" and ("slice::" in p or "[T]" in p or p.startswith("std::vec::Vec")) and not c.trait:
         return "slice"
